@@ -85,6 +85,14 @@ CLASSES = {
         "kind": "obj", "qualname": "aldy.solutions.MajorSolution",
         "fields": {"score": "float", "solution": "Dict[str, int]", "cn_solution": "CNSolution", "added": "List[Mutation]"},
     },
+    # value abstraction of the dictionary keys of solve_minor_model: (candidate allele, copy index). The real keys are
+    # SolvedAllele dataclass objects compared structurally; the candidates handed to the model have empty added/missing
+    # lists, so (major, minor) determines equality.
+    "AlleleId": {"kind": "rec", "qualname": "aldy.solutions.SolvedAllele#id",
+                 "fields": {"major": "str", "minor": "str", "added": "Opaque[MutList]", "missing": "Opaque[MutList]"}},
+    # MajorSolution with its solution keyed by such value keys (slices of solve_minor_model only)
+    "MajorSolutionK": {"kind": "obj", "qualname": "aldy.solutions.MajorSolution#keyed",
+                       "fields": {"score": "float", "solution": "Dict[AlleleId, int]", "cn_solution": "CNSolution", "added": "List[Mutation]"}},
     "MinorSolution": {
         "kind": "obj", "qualname": "aldy.solutions.MinorSolution",
         "fields": {"score": "float", "solution": "List[SolvedAllele]", "major_solution": "MajorSolution", "profile": "Optional[Profile]",
